@@ -9,7 +9,10 @@ mod c05;
 mod c06;
 mod c07;
 mod c08;
+mod c09;
 mod c10;
+mod c19;
+mod c20;
 mod gen;
 mod c18;
 mod c16;
@@ -51,7 +54,10 @@ fn main() {
         "C06" => c06::run(&mut ctx),
         "C07" => c07::run(&mut ctx),
         "C08" => c08::run(&mut ctx),
+        "C09" => c09::run(&mut ctx),
         "C10" => c10::run(&mut ctx),
+        "C19" => c19::run(&mut ctx),
+        "C20" => c20::run(&mut ctx),
         "C18" => c18::run(&mut ctx),
         "C16" => c16::run(&mut ctx),
         "C15" => c15::run(&mut ctx),
